@@ -60,17 +60,33 @@ Definition from_flow (fuel : nat) (beh : oracles) (f : flow) (d : dir) (start : 
   e_flow ev = fname f /\ e_dir ev = d
   /\ In (e_key ev, e_cond ev) (fst (exec_flow_impl fuel f d start (beh (fname f)))).
 
-(* the processor of the event lies on a path of its flow's graph that starts at
-   the entry point (or, after a hand-over from h, at the target of one of h's
-   connections), follows only connections carrying the condition output by
-   their source, and never continues from a processor that answered *)
-Definition on_root_path (beh : oracles) (e : eflow) (ev : event) : Prop :=
+(* the processor of the event lies on a path of its flow's graph that follows
+   only connections carrying the condition output by their source and never
+   continues from a processor that answered, and that starts
+   - at the entry point of the direction, or
+   - (response direction only) at the target of a response connection of a
+     processor h OF THE SAME FLOW THAT ANSWERED THE REQUEST EARLIER IN THIS
+     TRANSACTION: the trace [tr] has a request-direction event of this flow with
+     key h, h answers, and [ev] occurs after it. *)
+Definition on_root_path (beh : oracles) (tr : list event) (e : eflow) (ev : event) : Prop :=
   let g := gdir (graph_of e) (e_dir ev) in
   let b := beh (eid e) in
   e_cond ev = fst (b (e_key ev) (e_dir ev))
   /\ ((exists r, root g = Some r /\ on_path g (e_dir ev) b r (e_key ev))
-      \/ (e_dir ev = Res /\ exists h c t, In (c, Some t) (edges_of g h)
-                                         /\ on_path g Res b t (e_key ev))).
+      \/ (e_dir ev = Res /\ exists h c0 pre post c t,
+            tr = pre ++ {| e_flow := eid e; e_key := h; e_dir := Req; e_cond := c0 |} :: post
+            /\ In ev post /\ answers b Req h = true
+            /\ In (c, Some t) (edges_of g h) /\ on_path g Res b t (e_key ev))).
+
+(* the answering flow is found again when the transaction is looked up as a
+   response: its own status requirement allows a stream typed as a response
+   that has no response object - i.e. (C03: status_ok) it has none *)
+Definition found_again (e : eflow) (x : F.txn) : bool := F.status_ok (ef_filter e) (as_response x).
+
+(* F-C04d at the level of the engine: the classifier over the flows of the
+   configuration *)
+Definition e2e_dropped (cfg : econfig) (beh : oracles) (t : list event) : bool :=
+  answer_dropped beh (graphs cfg) t.
 
 (* ---- actions ------------------------------------------------------------------- *)
 
